@@ -145,6 +145,26 @@ def check_case(line, hout, dout, stats):
     return probs
 
 
+def replay_case(path):
+    """re-run the input recorded in a replay file (a kfps sequence line or a single kfp line)"""
+    import json
+    line = json.load(open(path))["replay"]["input_line"]
+    t = line.split()
+    if t[0] == "kfp":
+        return (line, [line], {"style": "replay", "calls": 1})
+    n, exo = int(t[1]), t[2] == "1"
+    p = 3
+    hl = 2 * n * n + ((n * n + n) if exo else 0)
+    head = t[p:p + hl]; p += hl
+    ncalls = int(t[p]); p += 1
+    singles = []
+    for _ in range(ncalls):
+        k = int(t[p]); p += 1
+        ln = n * k + n * n * k + k
+        singles.append(" ".join(["kfp", str(n), str(k), "1" if exo else "0"] + head + t[p:p + ln])); p += ln
+    return (line, singles, {"style": "replay", "n": n, "exo": exo, "calls": ncalls})
+
+
 def run(ctx):
     ctx.proof_stage()
     binary = vlib.build_harness("h_kf")
@@ -155,6 +175,8 @@ def run(ctx):
     if corpus.exists():
         cases += [(ln.strip(), [ln.strip()], {"style": "corpus", "calls": 1}) for ln in corpus.read_text().split("\n") if ln.strip()]
     cases += [gen_case(g, ctx.tier, i) for i in range(N)]
+    if ctx.replay:
+        cases = [replay_case(ctx.replay)]
     hout, logs = vlib.run_harness(binary, [c[0] for c in cases])
     singles = [l for c in cases for l in c[1]]
     dout = vlib.run_driver(singles)
